@@ -15,6 +15,10 @@ reasons_file = ROOT / "tools" / "not_claimed.json"
 reasons = json.loads(reasons_file.read_text()) if reasons_file.exists() else {}
 
 
+wip_file = ROOT / "tools" / "wip.json"
+wip = set(json.loads(wip_file.read_text())) if wip_file.exists() else set()
+
+
 def meta_of(pid: str):
     f = ROOT / "harness" / "txv" / "props" / f"{pid.lower()}.py"
     if not f.exists():
@@ -32,6 +36,8 @@ engines = {}
 for p in props:
     pid = p["id"]
     meta = meta_of(pid)
+    if pid in wip:
+        meta = None
     if not meta or meta.get("claimed") is False:
         na.append({"property_id": pid, "reason": (meta or {}).get("reason") or reasons.get(pid, "check not built yet (work in progress)")})
         continue
